@@ -65,8 +65,11 @@ def one_history(rep, rng, dev, hid):
     state = {"step": -1, "attempt": 0}
     raised = None
     with tempfile.TemporaryDirectory(prefix="pyt_c12_") as td:
-        opts = runs.make_options(td, solve_time=1e9, dt_init=dt_init, dt_max=dt_max, adaptive=adaptive, adaptive_window=window,
-                                 adaptive_time_step_multiplier=mult, max_solve_retries=max_retries,
+        # the flag in any truthy / falsy form (bool, numpy bool, int), the integer options as numpy integers now and then
+        aform = rng.choice([bool, np.bool_, int])
+        iform = rng.choice([int, np.int64])
+        opts = runs.make_options(td, solve_time=1e9, dt_init=dt_init, dt_max=dt_max, adaptive=aform(adaptive), adaptive_window=iform(window),
+                                 adaptive_time_step_multiplier=mult, max_solve_retries=iform(max_retries),
                                  save_every=rng.choice([1, 2, 3, 5, 1000]),     # the rule must not see the save interval
                                  # ... nor the screening iterations (one recorded value per solve step, not per iteration)
                                  **(dict(include_screening=True, screening_tolerance=1e-2) if screening else {}))
